@@ -220,7 +220,19 @@ type FuncReport struct {
 func contractModes(c *Contract) []string {
 	seen := map[string]bool{}
 	var out []string
-	for _, cl := range append(append([]Clause{}, c.Requires...), c.Ensures...) {
+	all := append(append([]Clause{}, c.Requires...), c.Ensures...)
+	for _, itf := range c.Interf {
+		all = append(all, itf.Pred)
+	}
+	var atKeys []string
+	for k := range c.Ats {
+		atKeys = append(atKeys, k)
+	}
+	sort.Strings(atKeys)
+	for _, k := range atKeys {
+		all = append(all, c.Ats[k]...)
+	}
+	for _, cl := range all {
 		if cl.Mode != "" && !seen[cl.Mode] {
 			seen[cl.Mode] = true
 			out = append(out, cl.Mode)
